@@ -174,7 +174,13 @@ func Reload(v *vrt.Ctx) {
 	sz := v.U32("declared-size")
 	v.Assume(sz <= 65535)
 	var err error
-	switch v.Choice("reload-shape", 3) {
+	page := "root "
+	deeper := false
+	switch v.Choice("reload-shape", 4) {
+	case 3: // LOAD, stop, descend, RELOAD from one level below the symbol's own
+		v.Assume(w.run(append(loadLine(sz), app.Code().Halt().Bytes()...)) == nil)
+		err = w.run(app.Code().Move("other").Reload("f").Halt().Bytes())
+		page, deeper = "other ", true
 	case 0: // LOAD, stop, RELOAD
 		v.Assume(w.run(append(loadLine(sz), app.Code().Halt().Bytes()...)) == nil)
 		err = w.run(app.Code().Reload("f").Halt().Bytes())
@@ -198,13 +204,28 @@ func Reload(v *vrt.Ctx) {
 		v.Assert(err == nil, "C05/reload-ok")
 		v.Assert(got == second, "C05/reload-replaces-the-value")
 		if sz != 0 {
-			v.Assert(v.And(rerr == nil, out == "root "+second), "C05/reload-shows-the-new-value")
+			v.Assert(v.And(rerr == nil, out == page+second), "C05/reload-shows-the-new-value")
+		}
+		if deeper {
+			// the value was replaced where the symbol lives: back at the load
+			// level it is still there, once
+			v.Assert(w.run(app.Code().Move("_").Bytes()) == nil, "C05/reload-ok")
+			got, gerr = w.ca.Get("f")
+			v.Assert(v.And(gerr == nil, got == second), "C05/reload-from-below-replaces-at-the-load-level")
+			n := 0
+			for _, fr := range w.ca.Cache {
+				if _, ok := fr["f"]; ok {
+					n++
+				}
+			}
+			v.Assert(n == 1, "C05/reload-from-below-replaces-at-the-load-level")
+			v.Cover("C05/reload-from-below")
 		}
 		v.Cover("C05/reload-replaced")
 	} else {
 		v.Assert(got == first, "C05/oversized-reload-result-was-stored")
 		if rerr == nil {
-			v.Assert(out == "root "+first, "C05/oversized-reload-result-was-shown")
+			v.Assert(out == page+first, "C05/oversized-reload-result-was-shown")
 		}
 		v.Cover("C05/reload-oversized")
 	}
